@@ -33,10 +33,20 @@ func VerifH13a() {
 		input = append(input, vMsgBytes(types[i], bodies[i])...)
 	}
 	// the client always finishes with CopyDone, so a Read is due whatever
-	// precedes it (e.g. nothing but Flush/Sync messages)
-	types = append(types, 'c')
-	bodies = append(bodies, nil)
-	input = append(input, vMsgBytes('c', nil)...)
+	// precedes it (e.g. nothing but Flush/Sync messages) - or the connection
+	// breaks inside a last CopyData message, which is NOT an end of stream
+	truncated := nondetBool()
+	if truncated {
+		full := vMsgBytes('d', nondetBytes(2+vChoose(2)))
+		cut := 6 + vChoose(len(full)-6) // at least one body byte, never all of them
+		types = append(types, 't')
+		bodies = append(bodies, nil)
+		input = append(input, full[:cut]...)
+	} else {
+		types = append(types, 'c')
+		bodies = append(bodies, nil)
+		input = append(input, vMsgBytes('c', nil)...)
+	}
 	K++
 	w := vNewWorld(input, 64)
 	cr := NewCopyReader(w.rd, w.wr, vTextColumns(1))
@@ -59,6 +69,10 @@ func VerifH13a() {
 			if call > 0 {
 				vReach("second-copydata")
 			}
+		case 't':
+			vAssert("truncated-copydata-is-not-end-of-stream", err != nil && err != io.EOF)
+			vReach("truncated-copydata")
+			return
 		case 'c':
 			vAssert("copydone-is-eof", err == io.EOF)
 			vAssert("copydone-no-output", len(w.conn.out) == before)
